@@ -11,6 +11,7 @@
 From Coq Require Import List ZArith NArith Bool.
 Import ListNotations.
 From PyccoloV Require gen.Events model.RwFrag model.FragSem proofs.FragSemProofs model.FragLoop proofs.FragLoopProofs model.FragFun proofs.FragFunProofs model.FragProg proofs.FragProgProofs.
+From PyccoloV Require proofs.DocProofs.
 From PyccoloV Require Import gen.PyAst model.Tree model.Erase proofs.EraseSound.
 
 Theorem C10_guard_branches_agree : forall sc test b o l,
@@ -54,6 +55,36 @@ Definition gtest : tree := T kBoolOp [] [[T kAnd [] []]; [T kName [SId 4] [[T kL
 Definition c1 (z : Z) : tree := T kConstant [SInt z; SNone] [].
 Example C10_nonvacuous :
   is_guard_test gtest = true /\ post kIfExp [] [[gtest]; [c1 1]; [c1 1]] = Some [c1 1] /\ post kIfExp [] [[gtest]; [c1 1]; [c1 2]] = None.
+Proof. vm_compute. repeat split; reflexivity. Qed.
+
+(* DOCSTRING POSITIONS (model/Erase.v check_docs, proofs/DocProofs.v).  `EMIT(.., ret="s")` has the value of "s", and the erasure treats it
+   so; but a string is the docstring of a function / class / module only when it stands, as written, as the first statement of the body -
+   a fact about syntax that no law of C10_erase_sound sees.  `check_docs out` is evaluated on every rewriter output together with check_erase;
+   for EVERY tree it accepts and every function / class / module body ANYWHERE in it (guard-exempt and pristine copies included): if the erased
+   body (which check_erase compares with the source) begins with a docstring, then the body as written begins with that very statement;
+   and a docstring written at the head of a body is the head of the erased body.  So source and output have their docstrings in the same places. *)
+Theorem C10_docstrings_kept : forall out k sc fs body d' rest,
+  check_docs out = true -> DocProofs.subtree (T k sc fs) out -> scope_body k fs = Some body ->
+  erase_stmts body = Some (d' :: rest) -> is_docstring_strict d' = true ->
+  exists body', body = d' :: body'.
+Proof. exact DocProofs.check_docs_everywhere. Qed.
+Print Assumptions C10_docstrings_kept.
+Theorem C10_docstrings_erased : forall d body l,
+  is_docstring_strict d = true -> erase_stmts (d :: body) = Some l -> exists rest, l = d :: rest.
+Proof. exact DocProofs.doc_head_erased. Qed.
+Print Assumptions C10_docstrings_erased.
+
+(* non-vacuity: `def f(): "doc"; pass` whose string has been wrapped passes check_erase (the value is the same) and fails check_docs;
+   left as written it passes both *)
+Definition doc_fun (d : tree) : tree :=
+  T kModule [] [[T kFunctionDef [SId 100%N; SNone] [[T karguments [] [[]; []; []; []; []; []; []]]; [d; T kPass [] []]; []; []; []]]; []].
+Definition doc_stmt : tree := T kExpr [] [[T kConstant [SStr 500%N; SNone] []]].
+Definition doc_wrapped : tree :=
+  T kExpr [] [[T kCall [] [[T kName [SId 1%N] [[T kLoad [] []]]]; [T kConstant [SStr 1090%N; SNone] []; T kConstant [SNid 3%N; SNone] []];
+                          [T kkeyword [SId 6%N] [[T kConstant [SStr 500%N; SNone] []]]]]]].
+Example C10_docstrings_nonvacuous :
+  check_erase (doc_fun doc_stmt) (doc_fun doc_wrapped) = true /\ check_docs (doc_fun doc_wrapped) = false /\
+  check_erase (doc_fun doc_stmt) (doc_fun doc_stmt) = true /\ check_docs (doc_fun doc_stmt) = true.
 Proof. vm_compute. repeat split; reflexivity. Qed.
 
 (* GUARDS AS A THEOREM on a fragment with `while` loops (model/FragLoop.v: FragSem.v + while loops with else clauses, the two guards the
